@@ -1,16 +1,17 @@
 SPECIFICATION Spec
 CONSTANTS
-  Addr <- AddrRestart
-  Gaps <- GapsRestart
+  Addr <- Addr2
+  Gaps <- GapsFixed2
   T = 10
   D = 1
-  MaxEvents = 4
-  MaxFails = 0
+  MaxEvents = 2
+  MaxFails = 1
   Backoff = FALSE
   Closed = TRUE
-  ObserveCb = TRUE
-  TrackQuiet = TRUE
+  ObserveCb = FALSE
+  TrackQuiet = FALSE
   UnitMs = 1000
 INVARIANTS TypeOK Converged LearnsLive ForgetsDead SelfListed PeriodRestored NoDuplicateAddr ChannelSane
 PROPERTIES CallbackIffChange NoResurrection
+ACTION_CONSTRAINT Dump
 VIEW View
